@@ -27,6 +27,7 @@ LEVEL_TEXT = (
     " The snap's dtype rule (output buffer float64, never inherited from the input) is included, and Grid summaries of helpers are parametric in their arguments (a helper that snaps what it is given is Grid wherever it is called with the search space's grid)."
     ' Included: the model receives a private copy of the proposed batch (C02-R7 restricted to the batch), and no snapping table is looked up by the identity (`id()`) of a grid.'
     " (R4) the SearchSpace is built from the caller's bounds / precision themselves (no transformed copy), which it keeps as private copies (C04-R10)."
+    " The Halton cursor rule of C13 is included (the generator is asked for, and returns, exactly batch_size points)."
 )
 TECHNIQUE = "typestate/provenance analysis over reaching definitions with class-hierarchy call resolution"
 
